@@ -109,7 +109,7 @@ def gen_spec(ctx, rng, tier, force=None):
     locality = force.get('locality') or wchoice(rng, {'identical': 10, 'samecell': 15, 'near': 27, 'face': 10, 'edge': 12, 'far': 26})
     mix = force.get('mix') or wchoice(rng, {'forward': 15, 'inverse': 15, 'boundary': 15, 'geo': 35, 'all': 20})
     temp = force.get('temp') or wchoice(rng, {'cold': 40, 'warm': 22, 'hot': 18, 'recent': 12, 'other': 8})
-    gran = force.get('gran') or ('instr' if (tier == 'thorough' and rng.random() < 0.1) else 'line')
+    gran = force.get('gran') or ('instr' if rng.random() < (0.1 if tier == 'thorough' else 0.04) else 'line')
     counts = [rng.randint(1, 3) for _ in range(T)]
     while sum(counts) > 9:
         counts[counts.index(max(counts))] -= 1
@@ -201,11 +201,19 @@ def gen_spec(ctx, rng, tier, force=None):
     if gran == 'instr':
         budget *= 10
         est *= 7
-    return {
+    kill = None
+    if gran == 'line' and not force.get('no_kill') and rng.random() < 0.08:
+        # fault: one thread's call dies part-way (failed allocation) while the others go on
+        kt = rng.randrange(T)
+        kill = {'t': kt, 'k': rng.randrange(max(1, sum(solo[kt]))), 'exc': 'MemoryError'}
+    spec = {
         'threads': threads, 'warm': warm, 'plan': plan, 'seed': rng.getrandbits(48),
         'budget': budget, 'est_len': est, 'gran': gran, 'post': True,
         'conf': {'T': T, 'locality': locality, 'mix': mix, 'temp': temp, 'counts': counts},
     }
+    if kill:
+        spec['kill'] = kill
+    return spec
 
 
 def expected(ctx, spec):
@@ -240,6 +248,8 @@ def _explainable(ctx, spec, res, limit=1700):
         if tried[0] > limit:
             break
         s = {'threads': spec['threads'], 'warm': spec['warm'], 'order': order}
+        if spec.get('kill'):
+            s['kill'] = spec['kill']
         r = ctx.run_seq(s)
         got = [[x[0] for x in row] for row in r['results']]
         if got == observed and (res['post'] is None or (r['post'] == res['post'] and r['post_seq'] == res['post_seq'])):
@@ -260,6 +270,14 @@ def judge(ctx, spec, res, explain=True):
         for i, c in enumerate(tc):
             e = exp[t][i]
             got, kept = res['results'][t][i]
+            if res.get('killed') and res['killed'][0] == t and res['killed'][1] == i:
+                # this call was aborted by the injected fault: its own outcome is not judged,
+                # but it must still have left its arguments alone
+                if e['args_kept'] and not kept:
+                    v = {'kind': 'argument-modified', 'thread': t, 'call': i, 'f': c['f'], 'call_repr': call_repr(c),
+                         'expected': e['outcome'], 'observed': got}
+                    break
+                continue
             if got != e['outcome']:
                 if e['outcome'][0] == 'ok' and got[0] == 'exc':
                     kind = 'raised'
@@ -323,6 +341,7 @@ def run_one(ctx, run_seed, tier, force=None):
         'fired': (res['nswitch'] > len(spec['threads']) - 1) if spec['plan']['plan'] == 'one' else None,
         'history_dependence': hd is not None,
         'raised_ok': sum(1 for tc in res['results'] for r in tc if r[0][0] == 'exc'),
+        'killed': bool(res.get('killed')),
     }
     return summ, spec, res, v
 
